@@ -5,6 +5,7 @@ import (
 	"math"
 	"reflect"
 	"strconv"
+	"strings"
 	"time"
 )
 
@@ -107,6 +108,15 @@ func (f *Fact) Sum(xs ...int64) int64 {
 	}
 	f.rec("Sum", a...)
 	return s
+}
+// Cat joins its arguments: lets two argument lists be told apart by their result
+func (f *Fact) Cat(xs ...string) string {
+	a := make([]interface{}, len(xs))
+	for i, x := range xs {
+		a[i] = x
+	}
+	f.rec("Cat", a...)
+	return strings.Join(xs, "|")
 }
 func (f *Fact) Boom(mode int64) int64 {
 	f.rec("Boom", mode)
